@@ -352,7 +352,7 @@ func (ti *TypeInfo) WF(v *Term, t types.Type, alloc *Term) []*Term {
 		}
 	case *types.Pointer:
 		ref, idx := Sel("p-ref", v), Sel("p-idx", v)
-		out = append(out, Le(IntLit(0), ref), Le(IntLit(0), idx))
+		out = append(out, Le(IntLit(0), ref), Le(IntLit(0), idx), Implies(Eq(ref, IntLit(0)), Eq(idx, IntLit(0))))
 		if alloc != nil {
 			out = append(out, Le(ref, alloc))
 		}
